@@ -27,7 +27,7 @@ ASSUMPTIONS = [
     "injected garbage is of the promptly-rejectable kind (>= one header long, wrong prefix); input that makes the client wait for a declared length is C06/C17's subject",
     "'holds an open connection' = the simulated socket was accepted and the client has not yet called close()/abort() on it nor lost it",
 ]
-PROBES = ["c07.slow_close", "c07.connect_during_slow_close", "c07.frame_then_fin", "c07.fin_at_accept", "c07.double_reset_same_instant", "c07.fault_during_reconnect", "c07.fault_at_retry_timer", "c07.unencodable_while_down",
+PROBES = ["c07.write_error_inside_subscriber", "c07.slow_close", "c07.connect_during_slow_close", "c07.frame_then_fin", "c07.fin_at_accept", "c07.double_reset_same_instant", "c07.fault_during_reconnect", "c07.fault_at_retry_timer", "c07.unencodable_while_down",
           "c07.raising_subscriber", "c07.api_class", "c07.probe_delivered"]
 
 
@@ -35,7 +35,7 @@ def budget(tier: str) -> int:
     return 12000 if tier == "quick" else 1_000_000
 
 
-FAULTS = ["refuse", "slow_accept", "fin", "rst", "garbage", "bad_crc", "undecodable", "truncated", "write_error", "unencodable", "send",
+FAULTS = ["refuse", "slow_accept", "fin", "rst", "garbage", "bad_crc", "undecodable", "truncated", "write_error", "reply_write_error", "unencodable", "send",
           "frame_then_fin", "fin_at_accept", "drain_error_at_connect", "slow_close", "fin_with_write_error"]
 
 
@@ -71,6 +71,11 @@ def generate(rng, index: int, tier: str) -> dict:
         tl.append({"at": 0.0, "op": "user.open"})
         if rng.random() < 0.3:
             tl.append({"at": 0.0, "op": "user.sock_subscribe", "name": "bad", "raises": True, "sub_yields": rng.choice([0, 1])})
+        # a message subscriber that answers what it receives with a request of its own, from inside the callback (what the API
+        # classes do for their handshake chain and for error descriptions)
+        if rng.random() < 0.5:
+            tl.append({"at": 0.0, "op": "user.sock_subscribe", "name": "replier", "sub_yields": rng.choice([0, 0, 1]),
+                       "replies": sendq.distinct_messages(rng, gen, 40)[24:]})
         n0 = rng.choice([0, 0, 1, 2])
         fates += [{"kind": rng.choice(["refuse", "unreachable", "timeout"]), "latency": rng.choice([0.0, 0.125])} for _ in range(n0)]
         acc = rng.choice([0.0, 0.125, 1.0])
@@ -199,6 +204,15 @@ def generate(rng, index: int, tier: str) -> dict:
             else:
                 tl.append({"at": t + lat, "op": "user.send", "msg": msgs[mi], "policy": rng.choice(sendq.POLICIES), "yields": rng.choice([0, 0, 1])})
                 mi += 1
+        elif kind == "reply_write_error":
+            # the failing write is one made from inside a message subscriber (a reply to a frame just received): the reset is
+            # then started by a task the read loop itself is waiting for
+            tl.append({"at": t, "op": "net.fates", "fates": recon})
+            tl.append({"at": t - G.EPS, "op": "net.fail_write", "nth": 1, "err": rng.choice(["EPIPE", "ECONNRESET", "ETIMEDOUT"])})
+            if api:
+                tl.append({"at": t, "op": "console.set", "entity": ["ac", 0], "fields": {"error": rng.choice([3, 7, 0x22])}})
+            else:
+                tl.append({"at": t, "op": "console.raw", "hex": _probe_status(gen, rng.randint(0, 7)).hex()})
         elif kind == "write_error":
             tl.append({"at": t, "op": "net.fates", "fates": recon})
             tl.append({"at": t, "op": "net.fail_write", "nth": rng.choice([1, 2, 3]), "err": rng.choice(["EPIPE", "ECONNRESET", "ETIMEDOUT", "EHOSTUNREACH"])})
@@ -297,6 +311,8 @@ def execute(sc: dict) -> dict:
                 break
     # --- probes
     fired = [e for e in trace.events if e[2] == "fault.fired"]
+    if any(e[2] == "sub.reply_raised" for e in trace.events) or (api and any(st.get("fields", {}).get("error") for st in sc["timeline"] if st["op"] == "console.set") and fired):
+        probes["c07.write_error_inside_subscriber"] = 1
     if len({e[1] for e in fired}) < len(fired):
         probes["c07.double_reset_same_instant"] = 1
     attempts = {}
